@@ -143,6 +143,12 @@ func emitConsts(p *pkgInfo, prefix string, w *bytes.Buffer) {
 	scope := p.pkg.Scope()
 	names := scope.Names()
 	sort.Strings(names)
+	var natNames []string
+	defer func() {
+		if len(natNames) > 0 {
+			fmt.Fprintf(w, "\n#[global] Hint Unfold %s : %sconsts.\n", strings.Join(natNames, " "), prefix)
+		}
+	}()
 	for _, n := range names {
 		c, ok := scope.Lookup(n).(*types.Const)
 		if !ok {
@@ -155,6 +161,10 @@ func emitConsts(p *pkgInfo, prefix string, w *bytes.Buffer) {
 				fmt.Fprintf(w, "Definition %s%s : Z := (%s)%%Z.\n", prefix, n, v.ExactString())
 			} else {
 				fmt.Fprintf(w, "Definition %s%s : N := %s%%N.\n", prefix, n, v.ExactString())
+				if u, ok := constant.Uint64Val(v); ok && u <= 70000 {
+					fmt.Fprintf(w, "Definition %s%s_nat : nat := %d.\n", prefix, n, u)
+					natNames = append(natNames, prefix+n+"_nat")
+				}
 			}
 		case constant.Float:
 			if constant.ToInt(v).Kind() == constant.Int {
